@@ -21,6 +21,9 @@ def main(tier, seed):
     items += fam_seq.bool_structure(seed, tier)
     items += fam_seq.eval_order(seed, tier)
     items += fam_seq.layout(seed, tier)
+    items += fam_seq.entry_binding(seed, tier)
+    items += fam_seq.misc(seed, tier)
+    items += fam_seq.computed_casts(seed, tier)[::3 if quick else 1]
     # minimum + 1 word stacks for a few programs
     n_tight = 8 if quick else 60
     tight = []
